@@ -96,6 +96,7 @@ inductive VErr where
   | beyondTail    -- chunk bytes after the verified (short) last window
   | truncatedSplit -- short chunk although the verified window continues after it
   | depth         -- recursion bound of the model
+  | stateLoop     -- `retry limit reached … state loop`: the attempts of `Chunk` are used up
   deriving Repr, DecidableEq, BEq
 
 /-- The CDN branch of `Chunk` before verification: every range of the plan is requested, decrypted and
@@ -110,6 +111,63 @@ def chunkRaw (cdn : Nat → Nat → Bytes) (dec : Nat → Bytes → Bytes) : Lis
     else match chunkRaw cdn dec rest with
       | .ok more => .ok (part ++ more)
       | .error e => .error e
+
+/-! ### the control loop of `cdn.Chunk`: redirect, token refresh, reupload -/
+
+/-- What the CDN (or the master DC on its behalf) does with one `upload.getCdnFile` request. -/
+inductive Ev where
+  | serve          -- answers `upload.cdnFile`
+  | reupload       -- `upload.cdnFileReuploadNeeded` → `upload.reuploadCdnFile` → try the chunk again
+  | tokenInvalid   -- FILE_TOKEN_INVALID → ask the master again → new redirect → try the chunk again
+  | tokenInvalidFile -- FILE_TOKEN_INVALID → the master now serves the file itself (no longer on the CDN)
+  deriving Repr, DecidableEq, BEq
+
+def Ev.isControl : Ev → Bool
+  | .serve => false
+  | _ => true
+
+inductive Pass where
+  | data (d : Bytes)
+  | restart
+  | master          -- fall back to the chunk the master DC returned
+  | fail (e : VErr)
+  deriving Repr, DecidableEq
+
+/-- One pass over the plan (the `partLoop`): every request consumes the next scripted event (`serve`
+when the script is exhausted). Returns the unconsumed events. -/
+def passEv (cdn : Nat → Nat → Bytes) (dec : Nat → Bytes → Bytes) : List Range → List Ev → List Ev × Pass
+  | [], evs => (evs, .data [])
+  | r :: rest, evs =>
+    match evs.headD .serve with
+    | .reupload => (evs.tail, .restart)
+    | .tokenInvalid => (evs.tail, .restart)
+    | .tokenInvalidFile => (evs.tail, .master)
+    | .serve =>
+      let part := dec r.offset (cdn r.offset r.limit)
+      if Facts.C34.rejectsLongPart && decide (part.length > r.limit) then (evs.tail, .fail .tooLong)
+      else if part.length < r.limit then (evs.tail, .data part)
+      else match passEv cdn dec rest evs.tail with
+        | (evs', .data more) => (evs', .data (part ++ more))
+        | other => other
+
+/-- The attempts loop of `Chunk` in CDN mode (`attempts` = iterations left). -/
+def chunkLoop (cdn : Nat → Nat → Bytes) (dec : Nat → Bytes → Bytes) (masterData : Bytes) (plan : List Range) :
+    Nat → List Ev → Except VErr Bytes
+  | 0, _ => .error .stateLoop
+  | n + 1, evs =>
+    match passEv cdn dec plan evs with
+    | (_, .data d) => .ok d
+    | (evs', .restart) => chunkLoop cdn dec masterData plan n evs'
+    | (_, .master) => .ok masterData
+    | (_, .fail e) => .error e
+
+/-- `Chunk` on a schema that has not seen the redirect yet: the first iteration asks the master DC, gets
+`upload.fileCdnRedirect`, switches to CDN mode and `continue`s (one attempt spent). -/
+def chunkFresh (cdn : Nat → Nat → Bytes) (dec : Nat → Bytes → Bytes) (masterData : Bytes)
+    (offset limit : Int) (evs : List Ev) : Except VErr Bytes :=
+  match buildPlan offset limit with
+  | .error _ => .error .plan
+  | .ok plan => chunkLoop cdn dec masterData plan (Facts.C34.maxRetryAttempts - 1) evs
 
 /-- `verifyChunk`'s loop over the hash windows touched by `data` (which starts at `cStart`).
 `look` = `hashForOffset` (master DC), `loadW` = `loadAndVerifyWindow`. Returns the (possibly patched) data. -/
